@@ -18,9 +18,12 @@ structure PMap where
   timestamp : Option Int
   period : Option Int
   isReceived : Bool
-  transmitting : Bool                -- a periodic task is running (`_task is not None`)
+  running : Option Int               -- period of the running periodic task (`_task is not None`), else `none`
   callbacks : List Nat               -- registered callbacks, by tag
 deriving Repr
+
+/-- a periodic task is running (`_task is not None`) -/
+def PMap.transmitting (m : PMap) : Bool := m.running.isSome
 
 def lens (m : PMap) : List Nat := m.layout.map (·.2)
 
@@ -28,7 +31,7 @@ def lens (m : PMap) : List Nat := m.layout.map (·.2)
 def mkMap (cob : Option Nat) (enabled rtr : Bool) (layout : List (Nat × Nat)) : PMap :=
   { cobId := cob, enabled := enabled, rtrAllowed := rtr, layout := layout,
     data := List.replicate (dataSize (layout.map (·.2))) 0, timestamp := none, period := none,
-    isReceived := false, transmitting := false, callbacks := [] }
+    isReceived := false, running := none, callbacks := [] }
 
 /-- `PdoMap.on_message(can_id, data, timestamp)`: new map and the callbacks invoked (in order) -/
 def onMessage (m : PMap) (canId : Nat) (data : Bytes) (ts : Int) : PMap × List Nat :=
@@ -50,8 +53,67 @@ def writeVar (m : PMap) (i : Nat) (v : Val) : Option PMap :=
   | some (t, len), some off => (writeRaw m.data (some t) off len v).map fun d => { m with data := d }
   | _, _ => none
 
-/-- `transmit()`: the frame handed to `send_message` (`none`: no COB-ID, `send_message` raises) -/
+/-- `transmit()`: the frame handed to `send_message` (`none`: no COB-ID, `send_message` raises) —
+    exactly one frame, whether or not a periodic task of the map is running -/
 def transmit (m : PMap) : Option (Nat × Bytes) := m.cobId.map fun c => (c, m.data)
+
+/-! ### periodic transmission of a map: `start(period)`, `stop()`, `update()` -/
+
+/-- the period `start(period)` works with: the argument, else the map's `period` attribute -/
+def effPeriod (arg cur : Option Int) : Option Int :=
+  match arg with
+  | some q => some q
+  | none => cur
+
+/-- `PdoMap.stop()`: the running task (if any) is stopped and forgotten -/
+def stop (m : PMap) : PMap := { m with running := none }
+
+/-- what `start` leaves when it raises: the old task is stopped, `period` already assigned -/
+def startFailed (m : PMap) (p : Option Int) : PMap := { m with running := none, period := p }
+
+/-- `PdoMap.start(period)`: stops a running task first, stores a given period, raises (`false`) when
+    there is no period (`None` or 0) or no COB-ID (`send_periodic` cannot build the message), else a
+    task with that period runs -/
+def start (m : PMap) (period : Option Int) : PMap × Bool :=
+  match effPeriod period m.period, m.cobId with
+  | some q, some _ =>
+    if q = 0 then (startFailed m (some q), false)
+    else ({ m with running := some q, period := some q }, true)
+  | p, _ => (startFailed m p, false)
+
+/-- `PdoMap.update()`: hands the current data to the running task; the map itself is unchanged -/
+def update (m : PMap) : PMap := m
+
+/-- a call of the periodic-transmission API -/
+inductive Ctl where
+  | start (period : Option Int)
+  | stop
+  | update
+deriving Repr
+
+def ctl (m : PMap) : Ctl → PMap
+  | .start p => (start m p).1
+  | .stop => stop m
+  | .update => update m
+
+/-- a step on one map of the producing side: a typed write to a mapped variable (a refused write
+    leaves the map as it was) or a periodic-transmission call -/
+inductive PStep where
+  | write (i : Nat) (v : Val)
+  | ctl (c : Ctl)
+
+def PStep.isWrite : PStep → Bool
+  | .write _ _ => true
+  | .ctl _ => false
+
+def pstep (m : PMap) : PStep → PMap
+  | .write i v => (writeVar m i v).getD m
+  | .ctl c => ctl m c
+
+def runP (m : PMap) (steps : List PStep) : PMap := steps.foldl pstep m
+
+/-- the map without its periodic-transmission state -/
+def core (m : PMap) : PMap := { m with running := none, period := none }
 
 /-- `remote_request()`: sent only for an enabled map that allows RTR -/
 def remoteRequest (m : PMap) : Option (Option Nat) :=
